@@ -10,7 +10,6 @@
 Require Import Cherab.Common.Qx.
 Require Import Cherab.Model.C18_Laser Cherab.Model.C18_Spectrum.
 Require Import Cherab.Proofs.C18_Segments Cherab.Proofs.C18_Profile Cherab.Proofs.C18_Density Cherab.Proofs.C18_Spectrum.
-Require Import Cherab.Model.C18_Float Cherab.Proofs.C18_Float.
 Open Scope Q_scope.
 
 (* ---- segments ---------------------------------------------------------------------------- *)
@@ -133,14 +132,14 @@ Print Assumptions C18_trivariate_volume_integral_partial.
 (* after ANY sequence of setter calls (no side condition) the cached wavelengths, power spectral
    density, bin powers, delta and all parameters equal those of a freshly constructed spectrum *)
 Theorem C18_spectrum_history_independent :
-  forall erf expo sqrt2 sqrt2pi k a s0 ops, sconstruct erf expo sqrt2 sqrt2pi k a = Some s0 ->
-  let s := fst (srun erf expo sqrt2 sqrt2pi s0 ops) in
-  sconstruct erf expo sqrt2 sqrt2pi k (sargs_of s) = Some s.
+  forall erf sqrt2 sqrt2pi k a s0 ops, sconstruct erf sqrt2 sqrt2pi k a = Some s0 ->
+  let s := fst (srun erf sqrt2 sqrt2pi s0 ops) in
+  sconstruct erf sqrt2 sqrt2pi k (sargs_of s) = Some s.
 Proof. exact spectrum_history_independent. Qed.
 Print Assumptions C18_spectrum_history_independent.
 
 Theorem C18_spectrum_accessors_report_parameters :
-  forall erf expo sqrt2 sqrt2pi k a s, sconstruct erf expo sqrt2 sqrt2pi k a = Some s ->
+  forall erf sqrt2 sqrt2pi k a s, sconstruct erf sqrt2 sqrt2pi k a = Some s ->
   get_min_wavelenth s = g_min a /\ get_max_wavelenth s = g_max a /\ get_spectral_bins s = g_bins a /\
   s_min s = g_min a /\ s_max s = g_max a /\ s_bins s = g_bins a /\
   get_delta_wavelength s = s_delta s /\
@@ -149,7 +148,7 @@ Proof. exact constructor_reports. Qed.
 Print Assumptions C18_spectrum_accessors_report_parameters.
 
 Theorem C18_wavelength_centres :
-  forall erf expo sqrt2 sqrt2pi k a s j, sconstruct erf expo sqrt2 sqrt2pi k a = Some s ->
+  forall erf sqrt2 sqrt2pi k a s j, sconstruct erf sqrt2 sqrt2pi k a = Some s ->
   (j < Z.to_nat (g_bins a))%nat ->
   length (s_wl s) = Z.to_nat (g_bins a) /\
   s_delta s == (g_max a - g_min a) / inject_Z (g_bins a) /\
@@ -161,8 +160,8 @@ Print Assumptions C18_wavelength_centres.
    CDF(x) = (1 + erf((x - mean) / (stddev sqrt 2))) / 2, for every extensional erf and every bin count.
    (That this CDF is the integral of the Gaussian density is classical analysis, not proved.) *)
 Theorem C18_gaussian_bin_power_is_cdf_difference :
-  forall erf expo sqrt2 sqrt2pi, (forall a b, a == b -> erf a == erf b) ->
-  forall a s j, sconstruct erf expo sqrt2 sqrt2pi SGauss a = Some s -> (j < Z.to_nat (g_bins a))%nat ->
+  forall erf sqrt2 sqrt2pi, (forall a b, a == b -> erf a == erf b) ->
+  forall a s j, sconstruct erf sqrt2 sqrt2pi SGauss a = Some s -> (j < Z.to_nat (g_bins a))%nat ->
   nth j (s_pow s) 0 ==
     ncdf erf (g_mean a) (s_ncdf s) (g_min a + qn (S j) * s_delta s)
     - ncdf erf (g_mean a) (s_ncdf s) (g_min a + qn j * s_delta s).
@@ -171,26 +170,26 @@ Print Assumptions C18_gaussian_bin_power_is_cdf_difference.
 
 (* the bin powers telescope to CDF(max) - CDF(min); they sum to one when the range spans the line *)
 Theorem C18_gaussian_power_telescopes :
-  forall erf expo sqrt2 sqrt2pi, (forall a b, a == b -> erf a == erf b) ->
-  forall a s, sconstruct erf expo sqrt2 sqrt2pi SGauss a = Some s ->
+  forall erf sqrt2 sqrt2pi, (forall a b, a == b -> erf a == erf b) ->
+  forall a s, sconstruct erf sqrt2 sqrt2pi SGauss a = Some s ->
   Qsum (s_pow s) == ncdf erf (g_mean a) (s_ncdf s) (g_max a) - ncdf erf (g_mean a) (s_ncdf s) (g_min a) /\
   (erf ((g_max a - g_mean a) * s_ncdf s) == 1 -> erf ((g_min a - g_mean a) * s_ncdf s) == -1 -> Qsum (s_pow s) == 1).
 Proof. exact gaussian_power_telescopes_c. Qed.
 Print Assumptions C18_gaussian_power_telescopes.
 
-(* ConstantSpectrum in exact arithmetic: every bin carries width/(max-min) = 1/bins; the sum is one.
-   (In doubles the outermost edges can round outside [min, max]: known finding, see the evidence.) *)
+(* ConstantSpectrum (bin value = overlap of the bin with [min, max] / ((max-min) * bin width), as in the
+   code since 879f8f0): every bin carries width/(max-min) = 1/bins; the sum is one. *)
 Theorem C18_constant_bin_power :
-  forall erf expo sqrt2 sqrt2pi, (forall a b, a == b -> erf a == erf b) ->
-  forall a s j, sconstruct erf expo sqrt2 sqrt2pi SConst a = Some s -> (j < Z.to_nat (g_bins a))%nat ->
+  forall erf sqrt2 sqrt2pi, (forall a b, a == b -> erf a == erf b) ->
+  forall a s j, sconstruct erf sqrt2 sqrt2pi SConst a = Some s -> (j < Z.to_nat (g_bins a))%nat ->
   nth j (s_pow s) 0 == s_delta s * (1 / (g_max a - g_min a)) /\
   nth j (s_pow s) 0 == 1 / inject_Z (g_bins a).
 Proof. exact constant_bin_power_c. Qed.
 Print Assumptions C18_constant_bin_power.
 
 Theorem C18_constant_power_sums_to_one :
-  forall erf expo sqrt2 sqrt2pi, (forall a b, a == b -> erf a == erf b) ->
-  forall a s, sconstruct erf expo sqrt2 sqrt2pi SConst a = Some s -> Qsum (s_pow s) == 1.
+  forall erf sqrt2 sqrt2pi, (forall a b, a == b -> erf a == erf b) ->
+  forall a s, sconstruct erf sqrt2 sqrt2pi SConst a = Some s -> Qsum (s_pow s) == 1.
 Proof. exact constant_power_sums_to_one_c. Qed.
 Print Assumptions C18_constant_power_sums_to_one.
 
@@ -204,25 +203,13 @@ Theorem C18_beam_rejected_setter_leaves_stale_parameter :
 Proof. exact beam_rejected_setter_leaves_stale_parameter. Qed.
 Print Assumptions C18_beam_rejected_setter_leaves_stale_parameter.
 
-(* record of the KNOWN FINDING on the unchanged implementation (known_findings.txt): with every
-   double operation of _update_cache rounded (round53), ConstantSpectrum(1000.1, 1000.3, 1) computes
-   an upper bin edge above max_wavelength and its single bin gets power 1/2; the same computation in
-   exact arithmetic gives 1 *)
-Theorem C18_constant_spectrum_refuted_in_doubles :
-  0 < d1000_1 /\ d1000_1 < d1000_3 /\
-  d1000_3 < round53 (fl_first_edge round53 d1000_1 d1000_3 1 + round53 (round53 (d1000_3 - d1000_1) / 1)) /\
-  Qsum (fl_const_power round53 d1000_1 d1000_3 1) == 1 # 2 /\
-  Qsum (fl_const_power (fun q => q) d1000_1 d1000_3 1) == 1.
-Proof. exact constant_spectrum_refuted_in_doubles. Qed.
-Print Assumptions C18_constant_spectrum_refuted_in_doubles.
-
 (* non-vacuity: the hypotheses of the theorems above are satisfiable (pi := 2, sigma := 1: sqrt(2 pi sigma^2) = 2
    is rational; exp := constant 1 is multiplicative) *)
 Example C18_nonvacuous :
   (exists l, segments (1 # 10) 1 = Some l /\ length l = 5%nat) /\
   (exists l, segments 1 (1 # 2) = Some l /\ length l = 1%nat) /\
   (exists s, construct 299792458 KBiv (mkA (mkV 0 2 (1 # 100000000) (1 # 100) (1 # 50) 0 0 0 0 0 (1 # 20) 1) (0, 1, 0)) = Some s) /\
-  (exists s, sconstruct (fun _ => 0) (fun _ => 1) (7 # 5) (5 # 2) SGauss (mkSA 1000 1100 10 1050 5) = Some s
+  (exists s, sconstruct (fun _ => 0) (7 # 5) (5 # 2) SGauss (mkSA 1000 1100 10 1050 5) = Some s
              /\ length (s_pow s) = 10%nat) /\
   (let sqrtf := fun v : Q => if Qeq_bool v 4 then 2 else 1 in
    0 < 2 /\ (forall a b : Q, (fun _ : Q => 1) (a + b) == 1 * 1) /\ sqrt_at sqrtf (2 * 2 * sq 1)).
